@@ -193,9 +193,7 @@ func initCodecs() {
 	c = reg(serCodec("attr", func() io.Serializable { return &transaction.Attribute{} }, func(g *G) any { a := g.attr(nil); return &a }))
 	c.show = showOf(showAttr)
 	c.jsonRT = jsonVia[transaction.Attribute]
-	c.jsonOK = func(v any) bool { // Reserved attributes: checked separately under their own key (below)
-		return v.(*transaction.Attribute).Type < transaction.ReservedLowerBound
-	}
+	// (Reserved attributes go through the generic JSON round trip since fix 45c21df; the check below keeps their own key)
 	c.extra = func(v any, rep *report) {
 		a := v.(*transaction.Attribute)
 		if a.Type < transaction.ReservedLowerBound {
@@ -226,14 +224,6 @@ func initCodecs() {
 	c.size = func(v any) int { return v.(*transaction.Transaction).Size() }
 	c.hash = func(v any) string { return v.(*transaction.Transaction).Hash().StringBE() }
 	c.jsonRT = jsonVia[transaction.Transaction]
-	c.jsonOK = func(v any) bool {
-		for _, a := range v.(*transaction.Transaction).Attributes {
-			if a.Type >= transaction.ReservedLowerBound {
-				return false
-			}
-		}
-		return true
-	}
 	c.weight = 30
 
 	// ---- headers and blocks ----
@@ -268,16 +258,6 @@ func initCodecs() {
 				return nil, fmt.Errorf("unmarshal: %w (%s)", err, trunc(string(j), 300))
 			}
 			return out, nil
-		}
-		c.jsonOK = func(v any) bool {
-			for _, t := range v.(*block.Block).Transactions {
-				for _, a := range t.Attributes {
-					if a.Type >= transaction.ReservedLowerBound {
-						return false
-					}
-				}
-			}
-			return true
 		}
 		c.weight = 12
 	}
@@ -604,6 +584,7 @@ func initCodecs() {
 	c.jsonOK = func(v any) bool { return v.(*manifest.Manifest).IsValid(util160zero, true) == nil }
 
 	initStoredForms()
+	initTokenCodecs() // token transfer log records (tokens.go)
 }
 
 // countIdx picks an index < valid (valid entries) or, rarely, an invalid one in [valid, total).
